@@ -10,21 +10,35 @@ type dir struct {
 	fs     *ReadOnlyFS
 	name   string
 	offset int
+	closed bool
 }
 
 func (d *dir) Read(p []byte) (n int, err error) {
+	if d.closed {
+		return 0, &hackpadfs.PathError{Op: "read", Path: d.name, Err: hackpadfs.ErrClosed}
+	}
 	return 0, &hackpadfs.PathError{Op: "read", Path: d.name, Err: hackpadfs.ErrIsDir}
 }
 
 func (d *dir) Close() error {
+	if d.closed {
+		return &hackpadfs.PathError{Op: "close", Path: d.name, Err: hackpadfs.ErrClosed}
+	}
+	d.closed = true
 	return nil
 }
 
 func (d *dir) Stat() (hackpadfs.FileInfo, error) {
+	if d.closed {
+		return nil, &hackpadfs.PathError{Op: "stat", Path: d.name, Err: hackpadfs.ErrClosed}
+	}
 	return hackpadfs.Stat(d.fs, d.name)
 }
 
 func (d *dir) ReadDir(n int) ([]hackpadfs.DirEntry, error) {
+	if d.closed {
+		return nil, &hackpadfs.PathError{Op: "readdir", Path: d.name, Err: hackpadfs.ErrClosed}
+	}
 	entries, err := hackpadfs.ReadDir(d.fs.sourceFS, d.name)
 	if err != nil {
 		return nil, err
